@@ -29,7 +29,7 @@ LEVEL_TEXT = (
 )
 LEVEL_NOTE = (
     "Trusted structure facts: qr(M) = (Q orthonormal columns, R upper-triangular); triu/tril; products of like-triangular matrices stay triangular; "
-    "Q^T X is general.  Known finding F6 (qr_r_jvp) is listed in known_findings.json."
+    "Q^T X is general; X - strictly_lower(X) is upper-triangular; a common matrix factor of a sum may be pulled out.  A rule that distinguishes input classes (where(all(diagonal(R) != 0), ., .), a static shape test) is judged per class; at a singular R the factorisation has no derivative and any finite convention is admitted."
 )
 
 ORDER = {"zero": 0, "diag": 1, "upper": 2, "lower": 2, "orth": 2, "general": 3}
@@ -50,6 +50,63 @@ def join(a, b):
     if leq(b, a):
         return a
     return "general"
+
+
+def _flatten_sum(t, c, out):
+    """t as a signed sum of terms: out gets (coefficient, term)."""
+    if isinstance(t, T.Term) and t.op in ("add", "sub") and len(t.args) == 2:
+        _flatten_sum(t.args[0], c, out)
+        _flatten_sum(t.args[1], c if t.op == "add" else -c, out)
+    elif isinstance(t, T.Term) and t.op == "neg":
+        _flatten_sum(t.args[0], -c, out)
+    elif isinstance(t, T.Term) and t.op == "mul" and len(t.args) == 2 and any(isinstance(x, (int, float)) and not isinstance(x, bool) for x in t.args) and any(isinstance(x, T.Term) for x in t.args):
+        k = next(x for x in t.args if isinstance(x, (int, float)))
+        _flatten_sum(next(x for x in t.args if isinstance(x, T.Term)), c * k, out)
+    else:
+        out.append((c, t))
+
+
+def _matmul_struct(x, y):
+    if x == y and x in ("upper", "lower", "diag"):
+        return x
+    if "zero" in (x, y):
+        return "zero"
+    if {x, y} <= {"upper", "diag"} or {x, y} <= {"lower", "diag"}:
+        return "upper" if "upper" in (x, y) else ("lower" if "lower" in (x, y) else "diag")
+    return "general"
+
+
+def _struct_sum(items):
+    """Structure of a signed sum.  Two exact identities beyond the join of the summands:
+    a common matrix factor is pulled out (X R - L R + L^T R = (X - L + L^T) R), and a matrix minus its strictly lower (upper) part is its upper (lower) part."""
+    items = [(c, x) for c, x in items if c != 0]
+    if not items:
+        return "zero"
+    if len(items) > 1 and all(isinstance(x, T.Term) and x.op == "matmul" for _c, x in items):
+        if all(x.args[1] is items[0][1].args[1] for _c, x in items):
+            return _matmul_struct(_struct_sum([(c, x.args[0]) for c, x in items]), struct(items[0][1].args[1]))
+        if all(x.args[0] is items[0][1].args[0] for _c, x in items):
+            return _matmul_struct(struct(items[0][1].args[0]), _struct_sum([(c, x.args[1]) for c, x in items]))
+    rest = list(items)
+    parts = []
+    for c, x in items:
+        if not (isinstance(x, T.Term) and (x.op.endswith(".tril") or x.op.endswith(".triu")) and x.args and (c, x) in rest):
+            continue
+        k = x.args[1] if len(x.args) >= 2 else x.kwargs.get("k", 0)
+        lower = x.op.endswith(".tril")
+        if not isinstance(k, int) or (lower and k > 0) or (not lower and k < 0):
+            continue
+        partner = next(((c2, y) for c2, y in rest if y is x.args[0] and c2 == -c), None)
+        if partner is None:
+            continue
+        rest.remove((c, x))
+        rest.remove(partner)
+        # Y - tril(Y, k<=0) keeps only entries above diagonal k: upper; Y - triu(Y, k>=0): lower
+        parts.append("upper" if lower else "lower")
+    out = "zero"
+    for s_ in parts + [struct(x) for _c, x in rest]:
+        out = join(out, s_)
+    return out
 
 
 def struct(t) -> str:
@@ -82,12 +139,10 @@ def struct(t) -> str:
         if {x, y} <= {"upper", "diag"} or {x, y} <= {"lower", "diag"}:
             return "upper" if "upper" in (x, y) else ("lower" if "lower" in (x, y) else "diag")
         return "general"
-    if op == "sub" and isinstance(a[1], T.Term) and a[1].op.endswith(".tril") and len(a[1].args) >= 2 and a[1].args[0] is a[0] and a[1].args[1] == -1:
-        return "upper"  # X - strictly_lower(X) = upper part of X
-    if op in ("add", "sub"):
-        return join(struct(a[0]), struct(a[1]))
-    if op == "neg":
-        return struct(a[0])
+    if op in ("add", "sub", "neg"):
+        items = []
+        _flatten_sum(t, 1, items)
+        return _struct_sum(items)
     if op == "mul":
         x, y = struct(a[0]), struct(a[1])
         # elementwise product keeps the smaller support
